@@ -194,6 +194,37 @@ func runC04(c *Ctx) {
 			}
 		}
 	}
+	clientIdentityApplied(c, "C04-D2")
+	if af := p.Fn("(*filtering.DNSFilter).ApplyAdditionalFiltering"); af != nil {
+		// the global rules are discarded whenever the client brought its own list (paused or not)
+		gp, np := core.CondEdges(af, func(at core.Atom) (bool, bool) {
+			if (at.Op == token.EQL || at.Op == token.NEQ) && core.IsNilConst(at.Other) {
+				if fr, _, ok := core.LoadedField(at.Base); ok && fr.Type == "filtering.Settings" && fr.Field == "BlockedServices" {
+					return true, at.Op == token.NEQ
+				}
+			}
+			return false, false
+		})
+		isReset := func(in ssa.Instruction) bool {
+			st, ok := in.(*ssa.Store)
+			if !ok {
+				return false
+			}
+			fr, ok := core.FieldOfAddr(st.Addr)
+			return ok && fr.Type == "filtering.Settings" && fr.Field == "ServicesRules" && core.IsNilConst(st.Val)
+		}
+		bad := np == 0
+		var det []string
+		for e := range gp {
+			if found, tr, _ := core.Reach(core.Query{From: []core.Point{{Block: e.From.Succs[e.Succ], Idx: 0}}, Target: core.IsReturn, Avoid: isReset}); found {
+				bad = true
+				det = append(det, p.TraceString(tr))
+			}
+		}
+		r.Check(!bad, "C04-D2", "own-list-always-replaces-global", p.FnPos(af),
+			"whenever the client has its own blocked-services list the global rules are discarded first (also while the client's own schedule pauses blocking)",
+			"a client with its own blocked-services list can keep the global rules (e.g. while its own schedule pauses blocking)", det...)
+	}
 	if af := p.Fn("(*filtering.DNSFilter).ApplyAdditionalFiltering"); af != nil {
 		g, n := core.CondEdges(af, func(at core.Atom) (bool, bool) {
 			if (at.Op == token.EQL || at.Op == token.NEQ) && core.IsNilConst(at.Other) {
@@ -400,6 +431,51 @@ func c04Siblings(c *Ctx) {
 	r.Check(fmt.Sprint(aw) == fmt.Sprint(allFields), "C04-D4", "add-writes-all-maps", p.FnPos(add), fmt.Sprintf("add writes all %d maps of the index", len(allFields)), fmt.Sprintf("add writes %v, the index has %v", aw, allFields))
 	r.Check(fmt.Sprint(rw) == fmt.Sprint(allFields), "C04-D4", "remove-deletes-all-maps", p.FnPos(rem), fmt.Sprintf("remove deletes from all %d maps of the index", len(allFields)),
 		fmt.Sprintf("remove deletes from %v but add writes %v: identifiers of a removed or updated client stay resolvable", rw, aw))
+	// add and remove address each map with the same key expression (a canonicalised key on one side only leaves entries behind)
+	shapesOf := func(fn *ssa.Function) map[string][]string {
+		out := map[string][]string{}
+		put := func(field string, k ssa.Value) {
+			out[field] = append(out[field], c04KeyShape(k, 0))
+		}
+		for _, f := range core.WithAnon(fn) {
+			for _, b := range f.Blocks {
+				for _, in := range b.Instrs {
+					switch x := in.(type) {
+					case *ssa.MapUpdate:
+						if fr, _, ok := core.LoadedField(x.Map); ok && fr.Type == "client.index" {
+							put(fr.Field, x.Key)
+						}
+					case *ssa.Call:
+						if b, ok := x.Common().Value.(*ssa.Builtin); ok && b.Name() == "delete" {
+							if fr, _, ok := core.LoadedField(x.Common().Args[0]); ok && fr.Type == "client.index" {
+								put(fr.Field, x.Common().Args[1])
+							}
+						}
+						k := core.CalleeKey(x.Common())
+						if strings.Contains(k, "aghalg.SortedMap") && len(x.Common().Args) > 1 && (strings.HasSuffix(k, ".Set") || strings.HasSuffix(k, ".Del")) {
+							fr, _, ok := core.LoadedField(x.Common().Args[0])
+							if !ok {
+								fr, ok = core.FieldOfAddr(x.Common().Args[0])
+							}
+							if ok && fr.Type == "client.index" {
+								put(fr.Field, x.Common().Args[1])
+							}
+						}
+					}
+				}
+			}
+		}
+		for k := range out {
+			sort.Strings(out[k])
+		}
+		return out
+	}
+	as, rs := shapesOf(add), shapesOf(rem)
+	for _, f := range allFields {
+		r.Check(fmt.Sprint(as[f]) == fmt.Sprint(rs[f]), "C04-D4", "same-key-form:"+f, p.FnPos(rem),
+			fmt.Sprintf("add and remove address %s with the same key expression %v", f, as[f]),
+			fmt.Sprintf("add stores into %s under %v but remove deletes %v: entries stored under a transformed key are never removed", f, as[f], rs[f]))
+	}
 	// nobody else mutates
 	for _, fn := range p.ModFnsIn("client") {
 		if fn.Blocks == nil || fn.Parent() != nil || fn == add || fn == rem {
@@ -578,4 +654,109 @@ func c04MostSpecific(c *Ctx) {
 	r.Check(okCb, "C04-D6", "subnet-range-callback:stops-at-first-containing-prefix", p.FnPos(cb),
 		"the subnet lookup stops at the first (most specific) prefix that contains the address and goes on otherwise",
 		"the subnet lookup does not stop at the first containing prefix", whyCb...)
+}
+
+// c04KeyShape renders the expression a map key is computed with, down to the
+// ranged collection it comes from: "elem(Subnets)", "Masked(elem(Subnets))",
+// "macToKey(elem(MACs))", "Name".
+func c04KeyShape(v ssa.Value, depth int) string {
+	if depth > 6 {
+		return "?"
+	}
+	switch x := v.(type) {
+	case *ssa.UnOp:
+		if fr, _, ok := core.LoadedField(x); ok {
+			return fr.Field
+		}
+		if ia, ok := x.X.(*ssa.IndexAddr); ok {
+			if fr, _, ok := core.LoadedField(ia.X); ok {
+				return "elem(" + fr.Field + ")"
+			}
+			return "elem(" + c04KeyShape(ia.X, depth+1) + ")"
+		}
+		return c04KeyShape(x.X, depth+1)
+	case *ssa.Extract:
+		if nx, ok := x.Tuple.(*ssa.Next); ok {
+			if rg, ok := nx.Iter.(*ssa.Range); ok {
+				if fr, _, ok := core.LoadedField(rg.X); ok {
+					return fmt.Sprintf("elem%d(%s)", x.Index, fr.Field)
+				}
+			}
+		}
+		return "?"
+	case *ssa.Call:
+		name := core.CalleeKey(x.Common())
+		if i := strings.LastIndex(name, "."); i >= 0 {
+			name = name[i+1:]
+		}
+		var args []string
+		for _, a := range x.Common().Args {
+			args = append(args, c04KeyShape(a, depth+1))
+		}
+		return name + "(" + strings.Join(args, ",") + ")"
+	case *ssa.Convert:
+		return c04KeyShape(x.X, depth+1)
+	case *ssa.ChangeType:
+		return c04KeyShape(x.X, depth+1)
+	case *ssa.Const:
+		return x.Value.String()
+	case *ssa.Parameter:
+		return x.Name()
+	}
+	return "?"
+}
+
+// clientIdentityApplied: the client's name and tags — what $client and $ctag
+// rules match on — are handed to the filter for every found client (used by
+// C04-D2 and C01-D9).
+func clientIdentityApplied(c *Ctx, rule string) {
+	p, r := c.P, c.R
+	ap := p.Fn("(*client.Storage).ApplyClientFiltering")
+	if ap == nil {
+		r.Undecided(rule, "ApplyClientFiltering", "-", "anchor not found")
+		return
+	}
+	// the client's identity (name, tags: what $client / $ctag rules match on) is handed over for every found client,
+	// whatever its own-settings switches say
+	isFlagIf := func(b *ssa.BasicBlock) bool {
+		iff, ok := b.Instrs[len(b.Instrs)-1].(*ssa.If)
+		if !ok {
+			return false
+		}
+		at := core.Decompose(iff.Cond)
+		fr, _, ok := core.LoadedField(at.Base)
+		return ok && fr.Type == "client.Persistent" && strings.HasPrefix(fr.Field, "UseOwn")
+	}
+	for _, field := range []string{"ClientName", "ClientTags"} {
+		var st ssa.Instruction
+		n := 0
+		for _, b := range ap.Blocks {
+			for _, in := range b.Instrs {
+				if s2, ok := in.(*ssa.Store); ok {
+					if fr, ok := core.FieldOfAddr(s2.Addr); ok && fr.Type == "filtering.Settings" && fr.Field == field {
+						st = in
+						n++
+					}
+				}
+			}
+		}
+		if n != 1 {
+			r.Fail(rule, "client-identity-applied:"+field, p.FnPos(ap), fmt.Sprintf("expected one store of the client's %s into the settings, found %d", field, n))
+			continue
+		}
+		dep := ""
+		for _, b := range ap.Blocks {
+			if !isFlagIf(b) || b == st.Block() || !b.Dominates(st.Block()) {
+				continue
+			}
+			for _, sc := range b.Succs {
+				if found, _, _ := core.Reach(core.Query{From: []core.Point{{Block: sc, Idx: 0}}, Target: func(in ssa.Instruction) bool { return in == st }}); !found {
+					dep = p.InstrPos(b.Instrs[len(b.Instrs)-1])
+				}
+			}
+		}
+		r.Check(dep == "", rule, "client-identity-applied:"+field, p.InstrPos(st),
+			"the client's "+field+" reaches the filter for every found client, independent of the own-settings switches",
+			"the client's "+field+" is handed to the filter only on one side of an own-settings switch ("+dep+"): rules restricted to that client or tag do not apply to clients using the global settings")
+	}
 }
